@@ -520,7 +520,7 @@ def run_fn(case):
             else:
                 evmap[id(el)] = Event(name=f"Ev{h['ev']}", arguments={"k": h["ev"]})
         els.append(SpecOp(op="match", spec=Spec(name="CatchTarget")))
-        flow_configs[f"flow{f}"] = types.SimpleNamespace(elements=els, element_labels={"L": len(els) - 1}, id=f"flow{f}")
+        flow_configs[f"flow{f}"] = types.SimpleNamespace(elements=els, element_labels={"L": len(els) - 1}, id=f"flow{f}", loop_id=f"loop{heads[idxs[0]]['loop']}")
         flow_states[f"F{f}"] = types.SimpleNamespace(uid=f"F{f}", flow_id=f"flow{f}", loop_id=f"loop{heads[idxs[0]]['loop']}", context=ctx, action_uids=auids, scopes={})  # scopes: read by the co-win branch since /repo 2a6b31b
         for pos, i in enumerate(idxs):
             h = heads[i]
